@@ -2,29 +2,49 @@ import StamModel.PosIndex
 open Stam
 namespace Driver
 
-def pxOp (t : String) : Option PI.Op :=
-  if t.startsWith "m" then (t.drop 1).toString.toNat?.map PI.Op.milestones
-  else if t.startsWith "s" then
-    match (t.drop 1).toString.splitOn "." with
-    | [b, e] => do some (.sel (← b.toNat?) (← e.toNat?))
-    | _ => none
-  else none
+def pxWidths (t : String) : Option (List Nat) :=
+  if t = "-" then some [] else (t.splitOn ".").mapM String.toNat?
+
+/-- the operations of a line: `m<interval>` (the resource enters a store under that interval: a milestone pass),
+`s<begin>.<end>` (a text selection), `t<widths, dot separated>` (the text is replaced with `with_string`, under the
+interval the resource has, and the resource enters a new store under the same interval) -/
+def pxOps : List String → Nat → Option (List PI.TOp)
+  | [], _ => some []
+  | t :: r, last =>
+    if t.startsWith "m" then
+      match (t.drop 1).toString.toNat? with
+      | some i => (pxOps r i).map (fun l => PI.TOp.op (.milestones i) :: l)
+      | none => none
+    else if t.startsWith "s" then
+      match (t.drop 1).toString.splitOn "." with
+      | [b, e] =>
+        match b.toNat?, e.toNat? with
+        | some b, some e => (pxOps r last).map (fun l => PI.TOp.op (.sel b e) :: l)
+        | _, _ => none
+      | _ => none
+    else if t.startsWith "t" then
+      match pxWidths (t.drop 1).toString with
+      | some ws => (pxOps r last).map (fun l => PI.TOp.retext ws last :: PI.TOp.op (.milestones last) :: l)
+      | none => none
+    else none
 
 def pxPairs (l : List (Nat × Nat)) : String := ".".intercalate (l.map (fun p => s!"{p.1}-{p.2}"))
 
-/-- `px <widths, comma separated> <op> …` with `m<interval>` / `s<begin>.<end>`: the index as the hook dumps it
-(`position:byte:begin2end:end2begin`), then the positions in use (begin / end / both) -/
+/-- `px <widths, comma separated> <op> …`: the index as the hook dumps it (`position:byte:begin2end:end2begin`), then
+the positions in use (begin / end / both) and the number of text selections -/
 def px (args : List String) : String :=
   match args with
   | ws :: ops =>
     let widths := (ws.splitOn ",").map String.toNat?
-    let ops' := ops.map pxOp
-    if widths.any Option.isNone || ops'.any Option.isNone then "bad-op" else
-    let w := widths.filterMap id
-    let st := PI.run w (ops'.filterMap id)
-    let dump := ",".intercalate (st.idx.map (fun e => s!"{e.1}:{e.2.bytepos}:{pxPairs e.2.b2e}:{pxPairs e.2.e2b}"))
-    let pos (m : PI.Mode) := ".".intercalate ((PI.positions st.idx m).map toString)
-    s!"{dump} | {pos .begin} | {pos .end_} | {pos .both} | {st.nsel}"
+    if widths.any Option.isNone then "bad-op" else
+    match pxOps ops 0 with
+    | none => "bad-op"
+    | some tops =>
+      let w := widths.filterMap id
+      let st := (PI.runT w tops).2
+      let dump := ",".intercalate (st.idx.map (fun e => s!"{e.1}:{e.2.bytepos}:{pxPairs e.2.b2e}:{pxPairs e.2.e2b}"))
+      let pos (m : PI.Mode) := ".".intercalate ((PI.positions st.idx m).map toString)
+      s!"{dump} | {pos .begin} | {pos .end_} | {pos .both} | {st.nsel}"
   | _ => "bad-op"
 
 end Driver
